@@ -354,6 +354,9 @@ def _alarm(signum, frame):
     raise _Timeout()
 
 
+_NEXT_FRAME = b"\x0c\x08\x96\x01\x12\x07trailer"      # a well-formed delimited frame (12 bytes of payload)
+
+
 class _ShortReads:
     """SupportsRead[bytes] that returns at most `chunk` bytes per call, fewer than asked, although more follow."""
 
@@ -394,7 +397,9 @@ class _Run:
                 # socket file): a loader may give up on it (raising is within the statement) or cope - but what
                 # it returns must still be a well-typed message
                 return "ok", cls().load(_ShortReads(data, self.short_chunk))
-            s = io.BytesIO(wire.enc_varint(len(data)) + data)
+            # the frame is followed by another one on the stream: a field of THIS frame that runs past the frame's
+            # end must not be satisfied from the bytes of the next frame
+            s = io.BytesIO(wire.enc_varint(len(data)) + data + _NEXT_FRAME)
             m = cls().load(s, SD)
             return "ok", m
         except _Timeout:
